@@ -6,8 +6,15 @@ from vncdotool import client as vclient
 
 ID = "C17"
 PROOF_MODULES = ["VncProofs.C17"]
-THEOREMS = []
-TRUSTED = []
+THEOREMS = ["Vnc.C16_progress", "Vnc.C16_no_spin", "Vnc.C17_chunk_independent", "Vnc.C17_chunkings", "Vnc.C17_prompt", "Vnc.C17_message", "Vnc.C17_messages",
+            "Vnc.C17_handshake", "Vnc.C17_session", "Vnc.C17_record_key", "Vnc.C17_record_pointer", "Vnc.C17_clicks", "Vnc.C17_record_other", "Vnc.C17_fmt",
+            "Vnc.C17_key_token", "Vnc.C16_type_len"]
+TRUSTED = [
+    "Lean 4.33 kernel; standard axioms only",
+    "VncModel/Proxy.lean (RFBServer as a buffering machine that consumes the type byte first - observationally the same as the Python handler that waits without consuming - and the recorder recStep) is tied to loggingproxy.py by this correspondence run: every recorder call, per chunk",
+    "TYPE_LEN, REVERSE_MAP, the message numbers are re-extracted from the source on every run",
+    "time.time is replaced by a virtual clock in ticks of 1/10000 s; '%.4f' of a difference of two such times prints the tick difference exactly for the magnitudes generated (< 10^4 s)",
+]
 ASSUMPTIONS = ["keysyms for which chr() is defined (<= 0x10FFFF) and that the output file can hold; others are the known finding keysym-not-recordable",
                "the recorder target (stdout / file) is an object with write(); time.time is patched to a virtual clock in ticks of 1/10000 s"]
 RULE = ("viewer sessions under each banner (3.3/3.5/3.7/3.8) x security (None / VNC authentication / other type) x --password-required, messages of all seven understood "
@@ -89,6 +96,9 @@ def run(ctx):
         for _ in range(r.randint(1, 5)):
             t += r.choice([0, 1, 3, 10000, 12345, 599999, 36000000])
             bursts.append((t, gen_viewer_messages(r, r.randint(1, 6), allow_unrecordable=(r.random() < .08))))
+        if si == 0:
+            # corpus: the listed finding keysym-not-recordable
+            bursts.append((t + 5, [(struct.pack("!BBxxI", 4, 1, 0x01000041), ("key", 0x01000041, True)), (struct.pack("!BBxxI", 4, 0, 0x61), ("key", 0x61, False))]))
         if r.random() < .5:
             # the handshake arrives with the first burst
             first = (bursts[0][0], [(hs, ("other",))] + bursts[0][1])
